@@ -61,7 +61,7 @@ func scenC16(e *Env) func() {
 		p.Conns = append(p.Conns, rs)
 	}
 	e.Sample = p
-	e.Cfg.Holds, e.Cfg.HoldMax = Pick(e, 0, 0, 0, 2), time.Duration(t)*time.Millisecond
+	e.Cfg.Holds, e.Cfg.HoldMax = Pick(e, 0, 0, 2, 4), time.Duration(t)*time.Millisecond
 	return func() { c16Run(e, p) }
 }
 
